@@ -1026,6 +1026,8 @@ func main() {
 	qidExhaustion(rep.Seed)
 	runtime.GOMAXPROCS(16)
 	sched.NoPerturb()
+	realUpstreams()
+	sched.NoPerturb()
 	for name, n := range sched.Counts() {
 		rep.Count("hook:"+name, n)
 	}
